@@ -47,7 +47,7 @@ def run_lean_unit(lines):
 
 # ----------------------------------------------------------------------------- the alphabet
 
-V0_BOUNDS = [(0.0, 4.0), (None, 1.5), (None, None)]
+V0_BOUNDS = [(0.0, 4.0), (None, 1.5), (None, None), (0.0, 2.0), (0.0, 2.0)]   # v0 v1 v2 w[0] w[1]
 
 
 class World:
@@ -60,8 +60,12 @@ class World:
         from optyx.analysis import compute_degree
         from optyx.core.expressions import get_all_variables
 
-        self.vs = [Variable(f"v{i}") for i in range(3)]
-        v0, v1, v2 = self.vs
+        from optyx import VectorVariable
+
+        v0, v1, v2 = [Variable(f"v{i}") for i in range(3)]
+        self.w = VectorVariable("w", 2, lb=0.0, ub=2.0)      # natural order: v0 v1 v2 w[0] w[1]
+        self.vs = [v0, v1, v2, self.w[0], self.w[1]]
+        w0, w1 = self.w[0], self.w[1]
         self.tag_of_name = {v.name: i for i, v in enumerate(self.vs)}
         self.exprs = {
             1: v0 + 2.0 * v1,                 # linear
@@ -71,6 +75,18 @@ class World:
             5: v2 - 0.5 * v0,                 # linear, other variables
             6: v1 ** 3 + v0,                  # cubic
             7: 3.0 * v1 - v0,                 # linear, same variables as 1
+            # single-variable affine expressions: `e sense 0` is a plain bound on one variable, in every relation to the
+            # declared bound (looser / equal / tighter, either side, either sign of the coefficient)
+            8: v0 + 0.0,                      # v0 >= 0 coincides with lb = 0
+            9: v0 - 1.0,                      # v0 >= 1 tighter than lb = 0 (coincides after v0.lb := 1)
+            10: v0 - 4.0,                     # v0 <= 4 coincides with ub = 4
+            11: 2.0 - 2.0 * v0,               # negative coefficient: (2 - 2 v0 <= 0) is v0 >= 1
+            12: v1 - 1.5,                     # v1 <= 1.5 coincides with ub
+            13: v2 + 1.0,                     # v2 >= -1, v2 unbounded until v2.lb := -1
+            14: w0 + 0.0,                     # element rows of the vectorised `w >= 0` on an lb = 0 vector
+            15: w1 + 0.0,
+            16: v0 + 2.0 * v1 + w0 + 3.0 * w1,   # linear objective over both families
+            17: 5.0 - v0,                     # 5 - v0 >= 0 is v0 <= 5, looser than ub = 4
         }
         self.ctx = {}
         for t, e in self.exprs.items():
@@ -119,6 +135,8 @@ def op_text(op, viol=False):
         return f"(st {op[1]} {op[2]})"
     if k in ("stl", "stbad"):
         return f"({k}" + "".join(f" ({t} {s})" for t, s in op[1]) + ")"
+    if k == "stv":
+        return f"(stl (14 {op[1]}) (15 {op[1]}))"
     if k in ("lb", "ub"):
         return f"({k} {op[1]} {brat(op[2])})"
     if k == "solve":
@@ -304,6 +322,12 @@ def apply_op(P, W, op, stubs):
         except Exception as ex:  # noqa: BLE001
             return "raise:" + type(ex).__name__
         return "unit"
+    if k == "stv":
+        # the vectorised form `w >= 0` / `w <= 0` of the public API: a list of element constraints
+        cs = (W.w >= 0.0) if op[1] == ">=" else (W.w <= 0.0)
+        for t, c in zip((14, 15), cs):
+            W.con_tag[id(c)] = t; W.keep.append(c)
+        P.subject_to(cs); return "unit"
     if k == "lb":
         W.vs[op[1]].lb = op[2]; return "unit"
     if k == "ub":
@@ -366,7 +390,7 @@ def run_history(W, ops, stubs, with_oracle=True):
         texts.append(op_text(op, viol))
         lines.append(obs + " | " + tr.flags(P))
         # bookkeeping for the non-triviality measure
-        if op[0] in ("min", "max", "st", "stl", "lb", "ub") and any_filled:
+        if op[0] in ("min", "max", "st", "stl", "stv", "lb", "ub") and any_filled:
             filled_then_edited = True
         if any(x is not None for x in (P._variables, P._solver_cache, P._lp_cache, P._is_linear_cache)):
             any_filled = True
@@ -471,6 +495,40 @@ def fresh_oracle(P, W, op, calls, obs, stubs):
     return None
 
 
+def real_solver_oracle(W, ops):
+    """the same history with the *real* back ends: every solve vs the same solve on a fresh Problem built from the
+    current state (status, optimal value; the minimiser itself only where both report OPTIMAL and it is unique enough
+    to agree to 1e-5).  Returns a failure dict or None."""
+    from optyx import Problem
+
+    W.reset_bounds(); W.con_tag = {}; W.keep = []
+    P = Problem()
+    for idx, op in enumerate(ops):
+        if op[0] != "solve":
+            apply_op(P, W, op, None)
+            continue
+
+        def one(prob):
+            try:
+                with warnings.catch_warnings():
+                    warnings.simplefilter("ignore")
+                    sol = prob.solve(method=op[1])
+                return (sol.status.name, None if sol.objective_value is None else float(sol.objective_value),
+                        dict(sol.values or {}))
+            except Exception as ex:  # noqa: BLE001
+                return ("raise:" + type(ex).__name__, None, {})
+
+        got, ref = one(P), one(fresh_problem(P))
+        bad = got[0] != ref[0]
+        if not bad and got[1] is not None and ref[1] is not None and got[0] == "OPTIMAL":
+            bad = abs(got[1] - ref[1]) > 1e-6 * (1.0 + abs(ref[1]))
+        if bad:
+            return {"what": "real solve on the edited problem differs from a fresh problem built from the current model",
+                    "method": op[1], "got": [got[0], got[1], got[2]], "fresh": [ref[0], ref[1], ref[2]],
+                    "history": [list(o) for o in ops[: idx + 1]], "at": idx, "real_back_end": True}
+    return None
+
+
 # ----------------------------------------------------------------------------- history generation
 
 FULL = [
@@ -507,20 +565,61 @@ def resubmit_histories():
     return hs
 
 
+# single-variable constraints with the index of the variable they bound
+BOUND_LIKE = [((8, ">="), 0), ((8, "<="), 0), ((9, ">="), 0), ((9, "<="), 0), ((10, "<="), 0), ((10, ">="), 0),
+              ((11, "<="), 0), ((11, ">="), 0), ((17, ">="), 0), ((12, "<="), 1), ((12, ">="), 1), ((13, ">="), 2),
+              ((14, ">="), 3), ((15, ">="), 4), ((15, "<="), 4)]
+LBS = [-3.0, 0.0, 1.0, None]
+UBS = [0.5, 1.5, 4.0, None]
+
+
+def bound_edits(v):
+    return [("lb", v, b) for b in LBS] + [("ub", v, b) for b in UBS]
+
+
+def bound_relation_histories(rng, thorough):
+    """a constraint that is a plain bound on one variable, in every relation to the *declared* bound of that variable
+    (looser / coinciding / tighter, lower or upper side, positive or negative coefficient, scalar and the vectorised
+    `w >= 0` on an lb = 0 vector) × a bound edit before the first solve × a bound edit after it (loosen / tighten /
+    cross / remove) × LP-path and NLP-path solves before and after"""
+    pairs = [("auto", "auto"), ("auto", "SLSQP"), ("SLSQP", "auto"), ("highs-ds", "linprog"), ("trust-constr", "highs")]
+    hs = []
+    for (c, v) in BOUND_LIKE:
+        objs = [("min", 16), ("max", 16)] if v >= 3 else [("min", 1), ("max", 7), ("min", 5)]
+        for obj in objs:
+            for pre in [None] + bound_edits(v):
+                for post in bound_edits(v):
+                    ms = pairs if thorough else [pairs[(len(hs) + i) % len(pairs)] for i in range(2)]
+                    for m1, m2 in ms:
+                        h = [obj, ("st", 1, ">="), ("st", c[0], c[1])]
+                        if pre:
+                            h.append(pre)
+                        h += [("solve", m1, 0), post, ("solve", m2, 0)]
+                        hs.append(h)
+    # the vectorised API form, objective over the vector, flips and edits of single elements
+    for sense in (">=", "<="):
+        for obj in (("min", 16), ("max", 16)):
+            for m1, m2 in pairs:
+                for post in bound_edits(3) + bound_edits(4):
+                    hs.append([obj, ("stv", sense), ("st", 16, "<="), ("solve", m1, 0), post, ("solve", m2, 0),
+                               ("max" if obj[0] == "min" else "min", 16), ("solve", m2, 0)])
+    return hs
+
+
 def histories(rng, thorough):
-    hs = resubmit_histories()
+    hs = resubmit_histories() + bound_relation_histories(rng, thorough)
     for n in (1, 2):
         hs += [list(p) for p in itertools.product(FULL, repeat=n)]
     # length 3 over the full alphabet with an objective first (the other prefixes raise NoObjective / do nothing)
     firsts = [o for o in FULL if o[0] in ("min", "max")]
     for f in firsts:
         hs += [[f] + list(p) for p in itertools.product(FULL, repeat=2)]
-    for n in ((3, 4, 5) if thorough else (3, 4)):
+    for n in ((3, 4, 5) if thorough else (3,)):
         hs += [list(p) for p in itertools.product(CORE, repeat=n)]
     if not thorough:
-        # a seeded sample of the length-5 core cube
-        cube = list(itertools.product(CORE, repeat=5))
-        hs += [list(p) for p in rng.sample(cube, 2500)]
+        # seeded samples of the length-4 and length-5 core cubes
+        hs += [list(p) for p in rng.sample(list(itertools.product(CORE, repeat=4)), 5000)]
+        hs += [list(p) for p in rng.sample(list(itertools.product(CORE, repeat=5)), 1500)]
     n_rand = 6000 if thorough else 1200
     for _ in range(n_rand):
         hs.append(rand_history(rng, rng.randint(6, 24 if thorough else 14)))
@@ -530,17 +629,19 @@ def histories(rng, thorough):
 def rand_op(rng):
     r = rng.random()
     if r < 0.16:
-        return (rng.choice(["min", "max"]), rng.choice([1, 2, 3, 4, 5, 6, 7]))
+        return (rng.choice(["min", "max"]), rng.choice([1, 2, 3, 4, 5, 6, 7, 16, 16, 8]))
     if r < 0.30:
-        return ("st", rng.choice([1, 2, 3, 5, 6, 7]), rng.choice(["<=", ">=", "=="]))
+        return ("st", rng.choice([1, 2, 3, 5, 6, 7, 8, 9, 10, 11, 12, 13, 14, 15, 16, 17]), rng.choice(["<=", ">=", "=="]))
+    if r < 0.33:
+        return ("stv", rng.choice([">=", "<="]))
     if r < 0.36:
         k = rng.randint(0, 3)
-        return ("stl", tuple((rng.choice([1, 2, 5, 7]), rng.choice(["<=", ">=", "=="])) for _ in range(k)))
+        return ("stl", tuple((rng.choice([1, 2, 5, 7, 9, 12, 14]), rng.choice(["<=", ">=", "=="])) for _ in range(k)))
     if r < 0.40:
         k = rng.randint(0, 2)
         return ("stbad", tuple((rng.choice([1, 2, 5, 7]), rng.choice(["<=", ">="])) for _ in range(k)))
     if r < 0.55:
-        return (rng.choice(["lb", "ub"]), rng.randint(0, 2), rng.choice([None, -2.0, -0.5, 0.0, 0.25, 1.0, 2.5, 3.0]))
+        return (rng.choice(["lb", "ub"]), rng.randint(0, 4), rng.choice([None, -3.0, -2.0, -0.5, 0.0, 0.25, 1.0, 1.5, 2.5, 4.0]))
     if r < 0.88:
         m = rng.choice(["auto", "auto", "SLSQP", "trust-constr", "linprog", "highs", "highs-ipm", "L-BFGS-B", "BFGS",
                         "Newton-CG", "Nelder-Mead", "TNC", "COBYLA", "trust-ncg"])
@@ -589,8 +690,10 @@ def run(ctx) -> core.Report:
     rng = ctx["rng"]
     thorough = ctx["tier"] == "thorough" or ctx["escalate"]
     rep = core.Report(rule="all operation sequences of length ≤ 2 over a 27-operation alphabet, length 3 after each objective, "
-                           "lengths 3–4 (+ sample of 5; thorough: all of 5) over a 10-operation core alphabet, re-submission of "
-                           "the identical objective object (same / flipped sense) between solves on every pair of 8 methods, seeded random "
+                           "length 3 (+ seeded samples of 4 and 5; thorough: all) over a 10-operation core alphabet, re-submission of "
+                           "the identical objective object (same / flipped sense) between solves on every pair of 8 methods; constraints that are "
+                           "plain bounds on one variable in every relation to its declared bound × bound edits before / after a solve "
+                           "(also with the real linprog / SLSQP back ends), seeded random "
                            "histories of length 6–14 (thorough 6–24); non-trivial = distinct histories with a solve after an "
                            "edit (objective / sense / constraint / bound) made after some cache was populated")
     W = World()
@@ -619,6 +722,24 @@ def run(ctx) -> core.Report:
             rep.histogram["back_end_calls_checked_vs_fresh"] = rep.histogram.get("back_end_calls_checked_vs_fresh", 0) + stats["solves"]
     finally:
         stubs.uninstall()
+        W.reset_bounds()
+        clear_lru()
+    # real back ends (no stubs) on a seeded sample of the constraint/bound family and of the random histories
+    try:
+        fam = bound_relation_histories(rng, thorough)
+        sample = rng.sample(fam, min(len(fam), 1500 if thorough else 180)) + \
+            [rand_history(rng, rng.randint(5, 12)) for _ in range(300 if thorough else 40)]
+        n_real = 0
+        for ops in sample:
+            ops = [o if o[0] != "solve" or o[1] not in ("trust-constr", "Newton-CG", "trust-ncg", "Nelder-Mead", "COBYLA", "TNC")
+                   else ("solve", "SLSQP", 0) for o in ops]   # keep the real phase fast and deterministic
+            f = real_solver_oracle(W, ops)
+            n_real += sum(1 for o in ops if o[0] == "solve")
+            if f is not None:
+                rep.oracle_failures.append(f)
+        rep.histogram["real_back_end_solves_checked_vs_fresh"] = n_real
+        rep.evaluations += n_real
+    finally:
         W.reset_bounds()
         clear_lru()
     outs = run_lean_unit(lean_lines)
@@ -656,6 +777,11 @@ def replay(payload) -> bool:
     f = payload["failure"]
     ops = [tuple(tuple(tuple(c) for c in x) if isinstance(x, list) else x for x in o) for o in f["history"]]
     W = World()
+    if f.get("real_back_end"):
+        r = real_solver_oracle(W, ops)
+        W.reset_bounds()
+        print("real back ends:", r)
+        return r is None
     stubs = Stubs()
     stubs.install()
     try:
